@@ -330,6 +330,7 @@ func checkC06(c *Ctx) {
 	c.checkOwnerOnlyOps()
 	c.checkOwnerWriters()
 	c.checkOfflineOwnership()
+	c.checkOwnerBitSources()
 }
 
 func errorsNewNonNil(v ssa.Value) (bool, bool) {
